@@ -27,7 +27,9 @@ pub fn scenario(seed: u64, idx: u64) -> Scenario {
     }
     // directories with conventional names inside the root (a feature keyed on such a prefix must not
     // become a way out either)
-    const CONVENTIONAL: &[&str] = &[".well-known/acme-challenge", ".well-known", "static", "assets/img", "files", "uploads", "download", "api/v1", "cgi-bin", "public", "~user", "media", "tmp", "cache", "private"];
+    const CONVENTIONAL: &[&str] = &[".well-known/acme-challenge", ".well-known", "static", "assets/img", "files", "uploads", "download", "api/v1", "cgi-bin", "public", "~user", "media", "tmp", "cache", "private",
+        // names whose byte length, character count and UTF-16 length all differ (scans that mix them up)
+        "写真アルバムと旅行の記録", "Überraschungsgrüße-für-Ägypten", "фотографии/отпуск-2024", "😀😀😀😀😀😀😀😀", "é", "ünï/çödé/каталог", "a\u{300}\u{301}\u{302}\u{303}\u{304}\u{305}\u{306}\u{307}"];
     let mut conventional: Vec<&str> = vec![];
     for _ in 0..rng.range(0, 3) {
         let d = *rng.pick(CONVENTIONAL);
